@@ -76,14 +76,24 @@ fn check_polygon(acc: &mut Acc, idx: usize, shell: &[IP], holes: &[Vec<IP>], tag
         acc.viol(format!("validation_errors().is_empty() != is_valid {}", tag), idx, wit);
     }
     // every reported error must be true
+    let empty_ring: Vec<IP> = vec![];
     let ring_of = |r: &RingRole| -> &Vec<IP> {
         match r {
             RingRole::Exterior => &cs,
-            RingRole::Interior(i) => &chs[*i],
+            RingRole::Interior(i) => chs.get(*i).unwrap_or(&empty_ring),
         }
     };
     for e in &errs {
         acc.evals += 1;
+        // an error must name a ring that exists
+        let roles: Vec<&RingRole> = match e {
+            InvalidPolygon::TooFewPointsInRing(r) | InvalidPolygon::SelfIntersection(r) | InvalidPolygon::NonFiniteCoord(r, _) | InvalidPolygon::InteriorRingNotContainedInExteriorRing(r) => vec![r],
+            InvalidPolygon::IntersectingRingsOnALine(a, b) | InvalidPolygon::IntersectingRingsOnAnArea(a, b) => vec![a, b],
+        };
+        if roles.iter().any(|r| matches!(r, RingRole::Interior(i) if *i >= chs.len())) {
+            acc.viol(format!("reported error names a ring that does not exist: {} {}", format!("{:?}", e).split('(').next().unwrap(), tag), idx, wit);
+            continue;
+        }
         let truth: Option<bool> = match e {
             InvalidPolygon::TooFewPointsInRing(r) => Some(trace(ring_of(r)).len() < 3 || ring_of(r).len() < 4),
             InvalidPolygon::SelfIntersection(r) => Some(!simple_ring(&trace(ring_of(r)))),
@@ -156,6 +166,15 @@ pub fn run(mut run: Run) -> i32 {
             check_polygon(acc, idx, s, &[h], "1hole");
         });
     }
+    // concave shell (U shape on the 6x6 lattice): holes whose vertices are all strictly inside but whose edges cross the slot
+    let ushape: Vec<IP> = vec![(0, 0), (5, 0), (5, 5), (3, 5), (3, 2), (2, 2), (2, 5), (0, 5)];
+    let g6 = grid(6);
+    let n6 = g6.len();
+    let ustride = if quick { 3 } else { 1 };
+    run.stage("hole-in-concave-shell", n6 * n6 * n6 / ustride, |idx, acc| {
+        let h: Vec<IP> = nth_sequence(n6, 3, idx * ustride).iter().map(|&i| g6[i]).collect();
+        check_polygon(acc, idx, &ushape, &[h], "1hole-concave");
+    });
     // two holes in a 6x4 window
     let big: Vec<IP> = vec![(0, 0), (5, 0), (5, 3), (0, 3)];
     let left = rings_over(&grid_xy(4, 4), 3);
@@ -267,6 +286,19 @@ pub fn run(mut run: Run) -> i32 {
             acc.evals += 1;
             if !(a.x.is_finite() && a.y.is_finite()) && r != Ok(false) {
                 acc.viol("Polygon with a non-finite shell coordinate accepted".into(), idx, || json!({"polygon": format!("{:?}", pg), "result": format!("{:?}", r)}));
+            }
+            // ... and with a hole present (the ring-vs-ring checks must not be reached with non-finite coordinates), and a non-finite hole coordinate
+            if !(a.x.is_finite() && a.y.is_finite()) {
+                let hole = LineString::new(vec![Coord { x: 1.0, y: 1.0 }, Coord { x: 2.0, y: 1.0 }, Coord { x: 1.0, y: 2.0 }, Coord { x: 1.0, y: 1.0 }]);
+                let good_shell = LineString::new(vec![Coord { x: 0.0, y: 0.0 }, Coord { x: 4.0, y: 0.0 }, Coord { x: 4.0, y: 4.0 }, Coord { x: 0.0, y: 4.0 }, Coord { x: 0.0, y: 0.0 }]);
+                let bad_hole = LineString::new(vec![Coord { x: 1.0, y: 1.0 }, Coord { x: 2.0, y: 1.0 }, a, Coord { x: 1.0, y: 1.0 }]);
+                for (what, pg2) in [("non-finite shell coordinate and a hole", Polygon::new(pg.exterior().clone(), vec![hole.clone()])), ("non-finite hole coordinate", Polygon::new(good_shell.clone(), vec![bad_hole.clone()]))] {
+                    acc.evals += 1;
+                    let r = guard(|| (pg2.is_valid(), pg2.validation_errors().is_empty()));
+                    if r != Ok((false, false)) {
+                        acc.viol(format!("Polygon with a {}: is_valid/validation_errors did not report it (or panicked)", what), idx, || json!({"polygon": format!("{:?}", pg2), "result": format!("{:?}", r)}));
+                    }
+                }
             }
         }
     });
